@@ -1,24 +1,81 @@
-import Revm.Proofs.Bundle
+import Revm.Proofs.BundleInvChangeset
 /-! C16 — bundle changesets turn the pre-state into the post-state.
 
 Model: `Revm.Model.Bundle` (CacheAccount events → TransitionAccount accumulation → BundleAccount
 `update_and_create_revert` → `to_plain_state`), Spec: `Revm.Spec.Bundle` (two-table plain state, direct
-application of commits, meaning of a changeset). The headline statement is
-`Spec.Bundle.ChangesetCorrectStatement` (all databases, histories, schedules, both flags); it is NOT
-proved here. Proved: (1) `to_plain_state` is correct for both `OriginalValuesKnown` settings from the
-per-account invariant of DESIGN A.3 (`changeset_*_row_correct`), (2) the exact panic table of
-`update_and_create_revert` and that no EVM-reachable status path reaches an `unreachable!` arm for any
-merge schedule (`merge_never_unreachable`). Missing for the full statement: preservation of the A.3
-invariant by `update_and_create_revert` / `TransitionAccount::update` over histories, and the fold over
-addresses of `applyChangeset`; these rest on the correspondence stream (`check m`: both flags, every
-schedule, oracle evaluated on the implementation's own changeset).
-Finding F3 (`take_bundle_counterexample`): bundles started by `take_bundle` on a continuing `State`
-are outside the property. -/
+application of commits, meaning of a changeset).
+
+Headline, PROVED at full strength: `changeset_correct : Spec.Bundle.ChangesetCorrectStatement` — for every
+database agreeing with a plain state that keeps no storage under absent accounts (`plainWF`), both
+state-clear settings, every EVM-reachable history (`reachHistory`: what the EVM can commit, `EvmState` and
+account storages being hash maps), every merge schedule and both `OriginalValuesKnown` settings: commits and
+merges never panic, and the changeset of the bundle (built by a FRESH `State` from an empty bundle) applied
+to the pre-history plain state is the post-history plain state — including destroy / re-create /
+destroy-again inside one bundle and inside one merge group. Proof (Proofs/BundleInv*.lean): per-address
+invariant of DESIGN A.3 extended by a cache side (`CInv`) and a transition side (`TInv`), preserved by
+`apply_account_state` + `TransitionAccount::update` (`apply_event`, accumulation law), by
+`update_and_create_revert` on every reachable (bundle status, transition status, was_destroyed)
+(`merge_core`), lifted over `commit` / `merge_transitions` (`commit_inv`, `merge_inv`), then the fold over
+addresses of `applyChangeset` (`changeset_of_bundleOK`).
+Excluded by the statement and false of the code: bundles started by `take_bundle` on a continuing `State`
+(finding F3, `take_bundle_counterexample`). `changeset_needs_wellformed_db_counterexample` shows that the
+`plainWF` hypothesis cannot be dropped (a post-EIP-161 touch of an absent account produces no transition,
+so storage a database kept under an absent address would survive). -/
 namespace Revm.Props.C16
 open Revm.Model.Bundle Revm.Spec.Bundle Revm.Proofs.Bundle
 
 /-- the full statement of C16 (see `Spec/Bundle.lean`) -/
 def FullStatement : Prop := ChangesetCorrectStatement
+
+/-- **C16, headline** (all databases, all EVM-reachable histories, all merge schedules, both state-clear
+settings, both `OriginalValuesKnown` settings; bundle built by a fresh `State` from an empty bundle) -/
+theorem changeset_correct : FullStatement := changeset_correct_proof
+
+/-- the hypotheses of `changeset_correct` are satisfiable by a non-trivial case: contract 1 with slot 1 = 7,
+destroyed and re-created (writing slot 1) inside one merge group -/
+example : dbMatches Wit.f1db Wit.f1p0 ∧ plainWF Wit.f1p0 ∧ reachHistory true Wit.f1p0 Wit.f1h = true := by
+  refine ⟨fun a => ?_, fun a ha k => ?_, by decide⟩
+  · by_cases h : a = 1
+    · subst h; rfl
+    · have h' : ¬ 1 = a := fun hh => h hh.symm
+      simp [Wit.f1db, Wit.f1p0, BMap.get, Plain.acct, List.find?, h']
+  · by_cases h : a = 1
+    · subst h; simp [Wit.f1p0, Plain.acct, List.find?] at ha
+    · have h' : ¬ 1 = a := fun hh => h hh.symm
+      simp [Wit.f1p0, Plain.slot, List.find?, h']
+
+/-- the per-address merge lemma behind the headline: whenever a bundle account satisfies the A.3 invariant
+w.r.t. (pre-bundle → last merge) and the accumulated transition satisfies the transition invariant w.r.t.
+(last merge → now), `update_and_create_revert` does not panic, the new bundle account satisfies the A.3
+invariant w.r.t. (pre-bundle → now), and the recorded revert leads from now back to the last merge -/
+theorem invariant_preserved_by_merge (b? : Option BAcct) (t : Transition) (c : CacheAcct) (Pi : Option Info)
+    (Ps : Nat → Nat) (Mi : Option Info) (Ms : Nat → Nat) (Ri : Option Info) (Rs : Nat → Nat)
+    (hb : BInv b? t.prevStatus Pi Ps Mi Ms) (hm : Facts t.prevStatus Mi Ms)
+    (ht : TInv t c Mi Ms Rs) (hc : CInv c Ri Rs) :
+    ∃ b?' rev, oneAcct b? t = some (b?', rev) ∧ BInv b?' c.status Pi Ps Ri Rs ∧
+      RevSem rev t.prevStatus Ps Mi Ms Ri Rs :=
+  merge_acct b? t c Pi Ps Mi Ms Ri Rs hb hm ht hc
+
+/-- the accumulation law behind the headline: one committed account (any EVM-possible one) keeps the cache
+invariant and the transition invariant, through `apply_account_state` and `TransitionAccount::update` -/
+theorem invariant_preserved_by_commit (sc : Bool) (c : CacheAcct) (t? : Option Transition) (ms : Status)
+    (Mi : Option Info) (Ms : Nat → Nat) (Ri : Option Info) (Rs : Nat → Nat) (ea : EvmAcct)
+    (hc : CInv c Ri Rs) (hg : GInv t? c ms Mi Ms Ri Rs) (he : ea.touched = true → EvOk Ri Rs ea) :
+    ∃ c' tr, applyAccountState sc c ea = some (c', tr) ∧
+      CInv c' (evInfo sc Ri ea) (evSlots sc Rs ea) ∧
+      GInv (combine t? tr) c' ms Mi Ms (evInfo sc Ri ea) (evSlots sc Rs ea) :=
+  apply_event sc c t? ms Mi Ms Ri Rs ea hc hg he
+
+/-- the `plainWF` hypothesis is needed: with storage kept under an absent address, a post-EIP-161 touch of
+that address wipes it in the reference state but produces no transition (`touch_empty_eip161` on
+`LoadedNotExisting`), so the changeset leaves slot (1,1) = 7 where the post-state has 0 -/
+theorem changeset_needs_wellformed_db_counterexample :
+    let p0 : Plain := { accts := [], stor := [(1, 1, 7)] }
+    let h : List Group := [[[(1, Wit.ea 0 0 0 false false [])]]]
+    reachHistory true p0 h = true ∧
+    (Wit.runLast { db := [], sc := true } p0 h).map (fun r =>
+      ((applyChangeset (toPlainState r.1.bundle false) p0).slot 1 1, r.2.slot 1 1)) = some (7, 0) := by
+  decide
 
 /-- storage row of `to_plain_state` (wipe flag + listed slots) maps the pre-bundle slots of the account
 to its current slots, for `OriginalValuesKnown::Yes` and `No`, given the A.3 storage invariant -/
